@@ -5,7 +5,7 @@
     float64: arbitrary functions, so the theorems hold whatever they return. *)
 From Coq Require Import List NArith ZArith Bool String.
 From Verif Require Import Lib.Utf8 Jsonx.Lex Jsonx.Tok Jsonx.GoStr Jsonx.Parse Jsonx.Json
-  Jsonx.Encode Jsonx.LexProofs Jsonx.ParseProofs Jsonx.Term Jsonx.Balance Jsonx.TermLegacy
+  Jsonx.Encode Jsonx.LexProofs Jsonx.ParseProofs Jsonx.Term Jsonx.Balance Jsonx.Seen Jsonx.TermLegacy
   Jsonx.GenTypes Gen.JsonxConsts Jsonx.ConstsGen.
 Import ListNotations.
 Local Open Scope N_scope.
@@ -141,6 +141,96 @@ Theorem C08_unbalanced_rejected_series :
   exists raw, jsonx_raw_tokens input = Ok raw /\ bal (sbody (parser_stream raw)) = 0%Z.
 Proof. exact (fun F pf ff => decode_series_ok_balanced pf ff). Qed.
 Print Assumptions C08_unbalanced_rejected_series.
+
+(** What the caller sees of the error handling, for every entry point and
+    every input.  The list of errors returned is not empty and holds at most
+    20 errors (the cap of lexing.ErrorList), however many errors the input
+    has; a result comes with no error. *)
+Theorem C08_to_json_caller_sees :
+  forall (F : Type) (pf : list N -> option F) (ff : F -> list N) input r,
+  to_json pf ff input = Ok r ->
+  ((exists out, r = (Some out, [])) \/ (exists e es, r = (None, e :: es))) /\ (List.length (snd r) <= 20)%nat.
+Proof. exact (fun F pf ff => to_json_seen pf ff). Qed.
+Print Assumptions C08_to_json_caller_sees.
+
+Theorem C08_decode_series_caller_sees :
+  forall (F : Type) (pf : list N -> option F) (ff : F -> list N) tm input r,
+  decode_series pf ff tm input = Ok r ->
+  ((exists res, r = (Some res, [])) \/ (exists e es, r = (None, e :: es))) /\ (List.length (snd r) <= 20)%nat.
+Proof. exact (fun F pf ff => decode_series_seen pf ff). Qed.
+Print Assumptions C08_decode_series_caller_sees.
+
+Theorem C08_decode_caller_sees :
+  forall (F : Type) (pf : list N -> option F) (ff : F -> list N) input vs es,
+  decode_all pf ff input = Ok (vs, Some (DErrs es)) -> es <> [] /\ (List.length es <= 20)%nat.
+Proof. exact (fun F pf ff => decode_all_seen pf ff). Qed.
+Print Assumptions C08_decode_caller_sees.
+
+(** Unmarshal is one Decode, then More, then the look at the errors found
+    while reading up to the end; it returns the first error of the list. *)
+Theorem C08_unmarshal_is_one_decode :
+  forall (F : Type) (pf : list N -> option F) (ff : F -> list N) s r,
+  unmarshal_stream pf ff s = Some r ->
+  exists d st', decode_step pf ff (p_init s) = Some (d, st') /\
+    match d with
+    | DErrs (e :: _) => r = UErr e
+    | DErrs [] => False
+    | DJsonErr t => r = UJsonErr t
+    | DOk t => r = if more st' then UMore else
+                   match p_errs st' with [] => UOk t | e :: _ => UErr e end
+    end.
+Proof. exact (fun F pf ff => unmarshal_is_decode_step pf ff). Qed.
+Print Assumptions C08_unmarshal_is_one_decode.
+
+(** strtoken.Parse: lexing errors are capped; the errors for strings that
+    strconv.Unquote rejects are a plain slice, one per token at most. *)
+Theorem C08_shell_parse_caller_sees : forall input r,
+  shell_parse input = Ok r ->
+  ((exists ss, r = (Some ss, [])) \/ (exists e es, r = (None, e :: es))) /\
+  exists raw, shell_raw_tokens input = Ok raw /\
+    (all_lex_errs raw <> [] -> snd r = all_lex_errs raw /\ (List.length (snd r) <= 20)%nat) /\
+    (all_lex_errs raw = [] -> (List.length (snd r) <= List.length raw)%nat).
+Proof. exact shell_parse_seen. Qed.
+Print Assumptions C08_shell_parse_caller_sees.
+
+(** Acceptance is impossible once any error was recorded: when an entry
+    point returns a result, the parser state it ends in has an empty error
+    list, the lexer's list is empty up to the token it stopped at, and no
+    sequence of parser operations containing an ErrorList.Add leads to that
+    state ([reach]: Next / Add / BailOut steps). *)
+Theorem C08_to_json_accept_no_error_recorded :
+  forall (F : Type) (pf : list N -> option F) (ff : F -> list N) s out errs,
+  to_json_stream pf ff s = Some (Some out, errs) ->
+  exists v st1, parse_value pf (parse_fuel (p_init s)) (p_init s) = Some (v, st1) /\
+    p_errs st1 = [] /\ forall e st, ~ reach (p_add e st) st1.
+Proof. exact (fun F pf ff => to_json_stream_accept_clean pf ff). Qed.
+Print Assumptions C08_to_json_accept_no_error_recorded.
+
+Theorem C08_decode_accept_no_error_recorded :
+  forall (F : Type) (pf : list N -> option F) (ff : F -> list N) st t st',
+  decode_step pf ff st = Some (DOk t, st') ->
+  exists v st1, parse_value pf (parse_fuel st) st = Some (v, st1) /\
+    p_errs st1 = [] /\ (forall e st0, ~ reach (p_add e st0) st1) /\
+    perrs st' = [] /\ (forall e st0, ~ reach (p_add e st0) st').
+Proof. exact (fun F pf ff => decode_step_accept_clean pf ff). Qed.
+Print Assumptions C08_decode_accept_no_error_recorded.
+
+Theorem C08_unmarshal_accept_no_error_recorded :
+  forall (F : Type) (pf : list N -> option F) (ff : F -> list N) s t,
+  unmarshal_stream pf ff s = Some (UOk t) ->
+  exists st', decode_step pf ff (p_init s) = Some (DOk t, st') /\
+    more st' = false /\ p_errs st' = [] /\ forall e st, ~ reach (p_add e st) st'.
+Proof. exact (fun F pf ff => unmarshal_stream_accept_clean pf ff). Qed.
+Print Assumptions C08_unmarshal_accept_no_error_recorded.
+
+Theorem C08_decode_series_accept_no_error_recorded :
+  forall (F : Type) (pf : list N -> option F) (ff : F -> list N) tm s res errs,
+  decode_series_stream pf ff tm s = Some (Some res, errs) ->
+  exists es st1, parse_series pf (parse_fuel (p_init s)) (p_init s) [] = Some (es, st1) /\
+    p_errs st1 = [] /\ (forall e st, ~ reach (p_add e st) st1) /\
+    fold_left (series_entry ff tm) es ([], []) = ([], res).
+Proof. exact (fun F pf ff => decode_series_stream_accept_clean pf ff). Qed.
+Print Assumptions C08_decode_series_accept_no_error_recorded.
 
 (** The loop SkipErrStmt had before the repair cannot leave EOF with any
     amount of fuel (the hang of DecodeSeries("x {")). *)
